@@ -759,7 +759,7 @@ def _script_half(plan, ops, symbols, probe, trace):
             # the script is edited in place (same number of commands) and asked again
             li = max(built)
             c_old = cmd_of[li]
-            pos = script.commands.index(c_old)
+            pos = max(j for j, c_ in enumerate(script.commands) if c_ is c_old)
             newf = mgr.Not(c_old.args[0])
             script.commands[pos] = SmtLibCommand(smtcmd.ASSERT, [newf])
             try:
